@@ -6,6 +6,8 @@ package kvh
 import (
 	"fmt"
 	"sort"
+	"strconv"
+	"strings"
 
 	"github.com/emirpasic/gods/v2/maps/hashbidimap"
 	"github.com/emirpasic/gods/v2/maps/hashmap"
@@ -55,6 +57,94 @@ type Op struct {
 	V int    `json:"v,omitempty"`
 	N int    `json:"n,omitempty"`
 	S int    `json:"s,omitempty"`
+	// load: the member names (keys) of a JSON object given to FromJSON, in document
+	// order; the value of each key is fixed by LoadPairs.
+	L []int `json:"l,omitempty"`
+}
+
+// LoadPairs turns the keys of a load op into the (key, value) members of the
+// document.  Identical keys are dropped (no duplicate member names).  FromJSON
+// decodes into a Go map and re-inserts in map order, so WHICH of several keys of
+// one comparator class is inserted last is not determined: all keys of a class
+// therefore carry one value (1000 + position of the class's first key), and keys
+// of different classes carry different values (one-to-one for the bidi maps).
+func LoadPairs(cmpID string, keys []int) [][2]int {
+	cmp := dom.Cmp(dom.Nat)
+	if cmpID != "" {
+		cmp = dom.Cmp(cmpID)
+	}
+	var out [][2]int
+	for _, k := range keys {
+		dup, v := false, 1000+len(out)
+		for _, p := range out {
+			if p[0] == k {
+				dup = true
+				break
+			}
+		}
+		if dup {
+			continue
+		}
+		for _, p := range out {
+			if cmp(p[0], k) == 0 {
+				v = p[1]
+				break
+			}
+		}
+		out = append(out, [2]int{k, v})
+	}
+	return out
+}
+
+// LoadDoc renders the pairs as a JSON object (members in the given order), or —
+// for sets — as the array of the keys.
+func LoadDoc(pairs [][2]int, array bool) []byte {
+	var sb strings.Builder
+	if array {
+		sb.WriteByte('[')
+	} else {
+		sb.WriteByte('{')
+	}
+	for i, p := range pairs {
+		if i > 0 {
+			sb.WriteByte(',')
+		}
+		if array {
+			fmt.Fprintf(&sb, "%d", p[0])
+		} else {
+			fmt.Fprintf(&sb, "%q:%d", strconv.Itoa(p[0]), p[1])
+		}
+	}
+	if array {
+		sb.WriteByte(']')
+	} else {
+		sb.WriteByte('}')
+	}
+	return []byte(sb.String())
+}
+
+// Load gives the document of the pairs to the container's FromJSON.
+func (b *Box) Load(pairs [][2]int) error {
+	doc := LoadDoc(pairs, false)
+	switch {
+	case b.RBT != nil:
+		return b.RBT.FromJSON(doc)
+	case b.AVL != nil:
+		return b.AVL.FromJSON(doc)
+	case b.BT != nil:
+		return b.BT.FromJSON(doc)
+	case b.TreeMap != nil:
+		return b.TreeMap.FromJSON(doc)
+	case b.HashMap != nil:
+		return b.HashMap.FromJSON(doc)
+	case b.Linked != nil:
+		return b.Linked.FromJSON(doc)
+	case b.HashBidi != nil:
+		return b.HashBidi.FromJSON(doc)
+	case b.TreeBidi != nil:
+		return b.TreeBidi.FromJSON(doc)
+	}
+	panic("kvh: Load on unknown kind")
 }
 
 type Case struct {
@@ -303,6 +393,7 @@ type GenParams struct {
 	SmallVals bool     // values from the key range (bidi collisions) instead of a counter
 	Stride    int      // keys are multiples of Stride (>=1); probes fall between neighbours
 	Probes    bool     // also emit "probe" ops (C02) with arbitrary keys
+	Loads     bool     // also emit "load" ops: FromJSON of a generated object replaces the content
 }
 
 var DefaultOrders = []int{3, 4, 5, 6, 7, 8, 9, 16, 33, 40, 64, 100}
@@ -354,8 +445,12 @@ func Gen(p GenParams) func(t *rapid.T) Case {
 		if p.Probes {
 			prw = 30
 		}
+		lw := 0
+		if p.Loads {
+			lw = 3
+		}
 		for i := 0; i < n; i++ {
-			switch dom.Weighted(t, "op", 1, pw, rw, gw, cw, runw, runw, prw) {
+			switch dom.Weighted(t, "op", 1, pw, rw, gw, cw, runw, runw, prw, lw) {
 			case 0:
 			case 1:
 				k := key("k")
@@ -390,6 +485,17 @@ func Gen(p GenParams) func(t *rapid.T) Case {
 				ln := rapid.IntRange(2, p.RunMax).Draw(t, "len")
 				st := []int{1, -1, 2, -3}[rapid.IntRange(0, 3).Draw(t, "step")] * p.Stride
 				c.Ops = append(c.Ops, Op{O: "remrun", K: key("k"), N: ln, S: st})
+			case 8:
+				// load: a document of fresh keys, some of them currently live
+				ks := rapid.SliceOfN(rapid.IntRange(0, hi), 0, 14).Draw(t, "load")
+				for j := range ks {
+					ks[j] *= p.Stride
+					if len(live) > 0 && j%3 == 2 {
+						ks[j] = live[(j*7+len(ks))%len(live)]
+					}
+				}
+				c.Ops = append(c.Ops, Op{O: "load", L: ks})
+				live = append(live[:0], ks...)
 			case 7:
 				// probe key: anywhere in (and a little outside) the key range, not tied to the stride
 				c.Ops = append(c.Ops, Op{O: "probe", K: rapid.IntRange(-2, hi*p.Stride+2).Draw(t, "pk")})
